@@ -634,12 +634,14 @@ func DVS(maxDocs int, withA bool, yield func(idx int64, batch []Doc) bool) {
 type Named struct {
 	Name  string
 	Batch []Doc
+	Heavy bool // megabytes of values: callers run fewer variants
 }
 
 // Extremes returns a handful of fixed batches whose *values* (not shapes) are extreme: huge
 // frequencies and location numbers (multi-byte varints up to 10 bytes), long terms and stored
 // values (past 255 / 64 KiB), thousands of distinct terms in one field, thousands of locations in
-// one posting, a field repeated hundreds of times in one document.
+// one posting, a field repeated hundreds of times in one document, 128-document stored blocks
+// larger than 1 MiB.
 func Extremes() []Named {
 	var out []Named
 	rep := func(s string, n int) string {
@@ -662,7 +664,7 @@ func Extremes() []Named {
 				{T: fmt.Sprintf("only%d", i), Freq: f},
 			}}, {N: "c", Len: 1, Terms: []Term{{T: "z", Freq: 1, Locs: []Loc{{F: "a", P: 1 << 33, S: 1 << 34, E: 1 << 35}}}}}})
 		}
-		out = append(out, Named{"bigfreq", b})
+		out = append(out, Named{Name: "bigfreq", Batch: b})
 	}
 	// long terms and values
 	{
@@ -673,7 +675,7 @@ func Extremes() []Named {
 			{IDField("e", 1), {N: "a", Len: 1, Terms: []Term{{T: t70k[:69999], Freq: 1}, {T: t300, Freq: 1}}}},
 			{{N: "_id", Len: 1, St: true, Val: []byte(rep("id-", 400)), Terms: []Term{{T: rep("id-", 400), Freq: 1}}}},
 		}
-		out = append(out, Named{"longterm", b})
+		out = append(out, Named{Name: "longterm", Batch: b})
 	}
 	// thousands of distinct terms in one field, hundreds of doc-value terms in one document
 	{
@@ -691,7 +693,7 @@ func Extremes() []Named {
 			{IDField("e", 0), {N: "a", Len: 3000, Terms: t0}, {N: "b", Len: 300, DV: true, Terms: dv}},
 			{IDField("e", 1), {N: "a", Len: 1000, Terms: t1}},
 		}
-		out = append(out, Named{"manyterms", b})
+		out = append(out, Named{Name: "manyterms", Batch: b})
 	}
 	// thousands of locations in one posting
 	{
@@ -703,7 +705,30 @@ func Extremes() []Named {
 			{IDField("e", 0), {N: "a", Len: 5000, Terms: []Term{{T: "x", Freq: 5000, Locs: locs}}}},
 			{IDField("e", 1), {N: "a", Len: 2, Terms: []Term{{T: "x", Freq: 2, Locs: locs[:1]}}}},
 		}
-		out = append(out, Named{"manylocs", b})
+		out = append(out, Named{Name: "manylocs", Batch: b})
+	}
+	// stored values that make one 128-document block exceed 1 MiB (uncompressed): a single 1.2 MiB
+	// value that is NOT in the last document, and a hundred 11 KiB values
+	{
+		pat := func(n, salt int) []byte {
+			b := make([]byte, n)
+			x := uint32(salt*2654435761 + 12345)
+			for i := range b {
+				x = x*1664525 + 1013904223
+				b[i] = byte('a' + (x>>24)%26) // poorly compressible, printable
+			}
+			return b
+		}
+		b := []Doc{{IDField("e", 0), {N: "a", Len: 1, St: true, Val: pat(1200000, 1), Terms: []Term{{T: "x", Freq: 1}}}}}
+		for i := 1; i < 6; i++ {
+			b = append(b, Doc{IDField("e", i), {N: "a", Len: 1, St: true, Val: []byte(fmt.Sprintf("small-%d", i)), Terms: []Term{{T: "x", Freq: 1}}}})
+		}
+		out = append(out, Named{"hugevalue", b, true})
+		var m []Doc
+		for i := 0; i < 130; i++ {
+			m = append(m, Doc{IDField("e", i), {N: "a", Len: 1, St: true, Val: pat(11000, i+7), Terms: []Term{{T: "x", Freq: 1}}}})
+		}
+		out = append(out, Named{"mib-block", m, true})
 	}
 	// one field repeated hundreds of times in one document (indexed, stored, doc values)
 	{
@@ -712,7 +737,7 @@ func Extremes() []Named {
 			d = append(d, Field{N: "b", Len: 1, DV: true, St: true, Val: []byte(fmt.Sprintf("v%d", i)), Terms: []Term{{T: fmt.Sprintf("t%d", i%50), Freq: 1, Locs: []Loc{{P: i + 1, S: i, E: i + 1}}}}})
 		}
 		b := []Doc{d, {IDField("e", 1), {N: "b", Len: 1, DV: true, Terms: []Term{{T: "t7", Freq: 1}}}}}
-		out = append(out, Named{"manyinstances", b})
+		out = append(out, Named{Name: "manyinstances", Batch: b})
 	}
 	return out
 }
